@@ -41,6 +41,9 @@ fn mk_key(i: usize) -> Key {
         // two labels with the same name, spelled in either order: equal keys (one metric, listed once)
         4 => Key::from_parts("z", vec![Label::new("zone", "a"), Label::new("zone", "b")]),
         5 => Key::from_parts("z", vec![Label::new("zone", "b"), Label::new("zone", "a")]),
+        // equal to keys 1 and 2: a CLONE of a static key taken before anything hashed it (what a caller does that keeps a
+        // copy of a call site's key)
+        6 => Key::from_static_parts("m", &L_BA).clone(),
         _ => Key::from_name("n"),
     }
 }
@@ -72,6 +75,7 @@ fn alphabet() -> Vec<Op> {
         Op::Inc(5, 3),
         Op::Abs(0, 1),
         Op::Abs(0, 9),
+        Op::Inc(6, 2),
         Op::Set(0, 1.5),
         Op::Rec(0, 1.0),
         Op::Rec(0, 2.0),
